@@ -205,6 +205,10 @@ func ruleC01(w *World, r *Report) {
 		k.clientVerifyRule("C01.client", ct, "VerifyPacketCommitment")
 	}
 	k.merkleRule("C01.merkle")
+	// BSC/ETH: the membership call of VerifyPacketCommitment is the Merkle-Patricia verifier
+	for _, ct := range []string{pBSC, pETH} {
+		k.mptRule("C01.mpt", ct)
+	}
 	r.MinInstances("C01.", 40)
 }
 
